@@ -46,6 +46,8 @@ def plan(tier, seed):
     specs.append({"name": "freq1", "kind": "freq", "shard": 81, "instances": 6 if tier == "quick" else 40, "timeout": 7000})
     for i in range(2 if tier == "quick" else 6):
         specs.append({"name": "cli%d" % i, "kind": "cli", "shard": 90 + i, "datasets": 1 if tier == "quick" else 3, "timeout": 7000})
+    for i in range(2):
+        specs.append({"name": "reuse%d" % i, "kind": "reuse", "shard": 120 + i, "instances": 25 if tier == "quick" else 300, "timeout": 7000})
     for i in range(4):
         specs.append({"name": "prog%d" % i, "kind": "prog", "shard": 110 + i, "datasets": 12 if tier == "quick" else 60, "timeout": 7000})
     for i in range(4 if tier == "quick" else 8):
@@ -59,7 +61,8 @@ def required(tier):
             "freq_runs": 8, "cli_confident_calls_compared": 5, "compound_kernels_checked": 20,
             "compound_paths_enumerated": 2000, "compound_rows_from_homozygous_state": 20,
             "prog_targets_compared": 100, "prog_targets_with_prior_frequencies": 20, "prog_targets_with_zero_frequency_allele": 5,
-            "prog_targets_inbred": 20, "prog_datasets_per_sample_inbreeding": 4, "prog_records_with_tiny_nonzero_prior": 5}
+            "prog_targets_inbred": 20, "prog_datasets_per_sample_inbreeding": 4, "prog_records_with_tiny_nonzero_prior": 5,
+            "reuse_second_fits_compared": 60, "reuse_llk_cells_checked": 2000, "reuse_second_fit_revisits_genotype_of_first": 20}
 
 
 def make_instance(rng, tier):
@@ -447,6 +450,61 @@ def run_compound(tier, seed, spec, col):
             col.sample({"compound_kernel_instance": pack(I), "genotypes": [list(g) for g in gs], "exact_posterior": pi.tolist()})
 
 
+def run_reuse(tier, seed, spec, col):
+    """One CallingMCMC object fitted on the reads of one sample and then on the reads of ANOTHER: the second fit must target
+    the posterior of the second sample's reads - every recorded log-likelihood equals the oracle's for THOSE reads, and
+    the trace is bit-identical to that of a fresh model with the same seed (nothing may survive from the first fit)."""
+    from mchap.calling.classes import CallingMCMC
+
+    for i in range(spec["instances"]):
+        rng = gen.rng_for(seed, ID, spec["shard"], i)
+        I = make_instance(rng, "quick")
+        if I["ploidy"] > 6:
+            continue
+        J = make_instance(rng, "quick")
+        n_pos, n_nucl = I["haps"].shape[1], I["reads"].shape[2]
+        n_alleles = (I["haps"].max(axis=0) + 1).astype(int)
+        n_alleles = np.maximum(n_alleles, 2)
+        n2 = int(rng.integers(1, 10))
+        truth = I["haps"][rng.integers(0, len(I["haps"]), size=I["ploidy"])]
+        reads2 = gen.gen_reads_from_haps(rng, truth, n2, n_alleles, n_nucl=n_nucl, gap_rate=float(rng.choice([0, 0.3])), err=float(rng.choice([0.0024, 0.05])))
+        counts2 = gen.gen_counts(rng, n2, mode="rand")
+        B = dict(I, reads=reads2, counts=counts2)
+        tB = Target(B)
+        for step_type in ("Gibbs", "Metropolis-Hastings"):
+            s0 = int(rng.integers(0, 2**31 - 1))
+            kw = dict(ploidy=I["ploidy"], haplotypes=I["haps"], inbreeding=I["F"], frequencies=I["freqs"], steps=40, chains=2, random_seed=s0, step_type=step_type)
+            case = {"kind": "reuse", "seed": seed, "shard": spec["shard"], "instance": i, "step_type": step_type, "first": pack(I), "second_reads": reads2.tolist(), "second_counts": counts2.tolist()}
+            col.case("REUSE|%d|%d|%s" % (spec["shard"], i, step_type), nontrivial=True)
+            try:
+                model = CallingMCMC(**kw)
+                t1 = model.fit(I["reads"], read_counts=I["counts"])
+                t2 = model.fit(reads2, read_counts=counts2)
+                fresh = CallingMCMC(**kw).fit(reads2, read_counts=counts2)
+            except Exception as ex:  # noqa: BLE001
+                col.inconclusive_note("CallingMCMC raised on a generated instance: %s: %s" % (type(ex).__name__, str(ex)[:160]))
+                continue
+            col.count("reuse_second_fits_compared")
+            g1 = {tuple(r) for r in np.asarray(t1.genotypes).reshape(-1, I["ploidy"]).tolist()}
+            g2 = np.asarray(t2.genotypes)
+            if any(tuple(r) in g1 for r in g2.reshape(-1, I["ploidy"]).tolist()):
+                col.count("reuse_second_fit_revisits_genotype_of_first")
+            if not (np.array_equal(g2, np.asarray(fresh.genotypes)) and np.array_equal(np.asarray(t2.llks), np.asarray(fresh.llks), equal_nan=True)):
+                col.violation("refit-depends-on-earlier-fit", "%s: the second fit() of one CallingMCMC object (other reads) differs from a fresh model with the same seed" % step_type, case)
+                continue
+            l2 = np.asarray(t2.llks, dtype=float)
+            bad = None
+            for ch in range(g2.shape[0]):
+                for st in range(g2.shape[1]):
+                    col.count("reuse_llk_cells_checked")
+                    want = tB.llk(tuple(int(a) for a in g2[ch, st]))
+                    got = float(l2[ch, st])
+                    if not (abs(got - want) <= 1e-8 * max(1.0, abs(want)) or (want == -math.inf and got == -math.inf)):
+                        bad = bad or "chain %d step %d genotype %s: recorded %.10g, the reads of this fit give %.10g" % (ch, st, g2[ch, st].tolist(), got, want)
+            if bad:
+                col.violation("refit-depends-on-earlier-fit", "%s: second fit() of one CallingMCMC object: %s" % (step_type, bad), case)
+
+
 def run_prog(tier, seed, spec, col):
     """The target `mchap call` hands to its sampler vs the distribution `mchap call-exact` reports, exactly.  Both programs
     run in-process on the same generated inputs (mixed ploidy, per-sample inbreeding file, --prior-frequencies with zero
@@ -646,6 +704,8 @@ def monitors_patched(*triples):
 def run_shard(tier, seed, spec, col):
     if spec["kind"] == "prog":
         return run_prog(tier, seed, spec, col)
+    if spec["kind"] == "reuse":
+        return run_reuse(tier, seed, spec, col)
     {"kernel": run_kernel, "freq": run_freq, "cli": run_cli, "compound": run_compound}[spec["kind"]](tier, seed, spec, col)
 
 
